@@ -5,7 +5,7 @@ round1_final round1_initial round2_final round2_initial) and, when present, self
 of the committed corpora with the final checks, which takes precedence for `detected_by_checks`)."""
 import glob, json, os, re, sys
 V = "/verif"
-r1f, r1i, r2f, r2i = sys.argv[1:5]
+r1f, r1i, r2f, r2i = (sys.argv[1:5] + ["/nonexistent"] * 4)[:4]
 props = {json.loads(l)["id"]: json.loads(l)["title"] for l in open(f"{V}/properties.jsonl")}
 final = {}
 if os.path.exists(f"{V}/selftest/corpus_results.json"):
@@ -49,6 +49,12 @@ for d in sorted(glob.glob(f"{V}/seeded/C??-?")):
     else:
         fin = load(r1f if rnd == 1 else r2f, src_id) or load(r1i if rnd == 1 else r2i, src_id)
         ini = load(r1i if rnd == 1 else r2i, src_id) or fin
+    old_meta = json.load(open(f"{d}/meta.json")) if os.path.exists(f"{d}/meta.json") else {}
+    if ini is None and old_meta.get("first_evaluation"):
+        # the scratch evaluation directories of the development runs are gone: keep what was recorded from them
+        ini = {"checks": {c: {"rc": 1 if c in old_meta["first_evaluation"].get("detected_by", []) else 0, "lines": []} for c in old_meta["first_evaluation"].get("checks_run", [])},
+               "demo_clean_rc": old_meta.get("confirmed_by_me", {}).get("demo_on_unchanged_tree_rc"), "demo_changed_rc": old_meta.get("confirmed_by_me", {}).get("demo_with_change_rc"),
+               "tests_pass": old_meta.get("confirmed_by_me", {}).get("test_suite_passes_with_change")}
     det0 = sorted(c for c, v in (ini or {}).get("checks", {}).items() if v["rc"] == 1)
     det1 = sorted(c for c, v in (fin or {}).get("checks", {}).items() if v["rc"] == 1)
     rules = rules_of(fin)
